@@ -65,7 +65,7 @@ std::string editModel(NifFile& nif, Tape& t) {
 		uint32_t nb = hdr.GetNumBlocks();
 		if (nb < 2)
 			break;
-		switch (t.u8() % 8) {
+		switch (t.u8() % 10) {
 			case 0: { // clear one non-empty child reference: the sub-graph behind it becomes loose
 				uint32_t start = t.u16() % nb;
 				for (uint32_t k = 0; k < nb; k++) {
@@ -141,6 +141,31 @@ std::string editModel(NifFile& nif, Tape& t) {
 					ap->threshold = 100;
 					nif.AssignAlphaProperty(s, std::move(ap));
 					log += "assign-alpha; ";
+				}
+				break;
+			}
+			case 8: { // move a vertex to coordinates that no 16-bit half can hold exactly
+				auto shapes = nif.GetShapes();
+				if (shapes.empty())
+					break;
+				auto s = shapes[t.u8() % shapes.size()];
+				if (s->GetNumVertices() == 0)
+					break;
+				nif.MoveVertex(s, Vector3(0.12345678f, -3.3333333f, 7.0000019f), t.u16() % s->GetNumVertices());
+				log += "move-vertex(non-half values); ";
+				break;
+			}
+			case 9: { // texture coordinates that no 16-bit half can hold exactly
+				auto shapes = nif.GetShapes();
+				if (shapes.empty())
+					break;
+				auto s = shapes[t.u8() % shapes.size()];
+				std::vector<Vector2> uv(s->GetNumVertices());
+				for (size_t i = 0; i < uv.size(); i++)
+					uv[i] = Vector2(0.1f + 0.00137f * static_cast<float>(i % 97), 0.7f - 0.00091f * static_cast<float>(i % 89));
+				if (!uv.empty()) {
+					nif.SetUvsForShape(s, uv);
+					log += "set-uvs(non-half values); ";
 				}
 				break;
 			}
